@@ -13,9 +13,10 @@ the endpoint was seen to do right after it: request transmissions and returns of
   return of the call (`copyAfterStop`);
 * a call returns at most once (`doubleReturn`) and a successful return carries a response that really
   came back for that request (`spuriousSuccess`) — so neither exhaustion nor a reset produces success;
-* if the matching acknowledgement came back while the request was still being (re)transmitted and not all
-  `1 + MAX_RETRANSMIT` copies had been sent yet, then as soon as the response is there as well (same
-  message, earlier, or later) the call returns it (`noSuccess`), unless the caller cancelled first;
+* if the matching acknowledgement — or the matching response itself, which is an implicit acknowledgement
+  (RFC 7252 §5.2.2) — came back while the request was still being (re)transmitted and not all
+  `1 + MAX_RETRANSMIT` copies had been sent yet, then as soon as the response is there (same message or
+  later) the call returns it (`noSuccess`), unless the caller cancelled first; no copy follows that response;
 * never more than NSTART requests transmitted and neither acknowledged/reset nor returned (`nstart`).
 -/
 namespace CoapVerif.Spec.Retransmit
@@ -108,9 +109,7 @@ def applyEv (c : Cfg) (s : JState) : Ev → JState × Option (Nat × Nat)
   | .recvMid id k =>
     match getRec s id with
     | some r =>
-      if r.count = 0 then
-        -- not transmitted yet: the message cannot be an acknowledgement; a response it carries still counts
-        (match k with | .pig tag => setRec s { r with resps := r.resps ++ [tag] } | _ => s, none)
+      if r.count = 0 then (s, none)   -- not transmitted yet: nothing can match it (the harness injects nothing)
       else
       let first := !r.stopped
       let isAck := match k with | .rst => false | _ => true
@@ -123,8 +122,14 @@ def applyEv (c : Cfg) (s : JState) : Ev → JState × Option (Nat × Nat)
   | .resp id _ tag =>
     match getRec s id with
     | some r =>
-      let r' := { r with resps := r.resps ++ [tag] }
-      let due := if r.inTime && live s.now r then r'.resps.head?.map (fun tag => (id, tag)) else none
+      if r.count = 0 then (s, none)   -- a response cannot precede the request (the harness injects nothing)
+      else
+      -- the matching response is an implicit acknowledgement (RFC 7252 5.2.2): it counts as "got back in time" when it
+      -- is the first thing to come back and fewer than 1 + MAX copies were sent; no copy may follow it
+      let first := !r.stopped
+      let inTime := r.inTime || (first && r.count ≤ c.maxRetransmit)
+      let r' := { r with stopped := true, inTime := inTime, resps := r.resps ++ [tag] }
+      let due := if inTime && live s.now r then r'.resps.head?.map (fun tag => (id, tag)) else none
       (setRec s r', due)
     | none => (s, none)
 
